@@ -8,8 +8,8 @@ From SV Require Import Base.Prelude Base.Bytes Model.FrameBase Model.FrameTypes.
 From Coq Require Import Ascii String.
 Open Scope N_scope.
 
-Definition ascii (s : string) : bytes := List.map N_of_ascii (list_ascii_of_string s).
-Definition is_str (b : bytes) (s : string) : bool := bytes_eqb b (ascii s).
+Definition astr (s : string) : bytes := List.map N_of_ascii (list_ascii_of_string s).
+Definition is_str (b : bytes) (s : string) : bool := bytes_eqb b (astr s).
 
 (* ---- negotiated features that influence decoding (ProtocolFeatures) -------------------- *)
 Record features : Type := mkFeatures { ft_rate_limit : option Z; ft_metadata_id : bool }.
@@ -25,9 +25,9 @@ Definition write_type_of (s : bytes) : write_type :=
   else if is_str s "VIEW" then WtView else if is_str s "CDC" then WtCdc else WtOther s.
 Definition write_type_str (w : write_type) : bytes :=
   match w with
-  | WtSimple => ascii "SIMPLE" | WtBatch => ascii "BATCH" | WtUnloggedBatch => ascii "UNLOGGED_BATCH"
-  | WtCounter => ascii "COUNTER" | WtBatchLog => ascii "BATCH_LOG" | WtCas => ascii "CAS"
-  | WtView => ascii "VIEW" | WtCdc => ascii "CDC" | WtOther s => s
+  | WtSimple => astr "SIMPLE" | WtBatch => astr "BATCH" | WtUnloggedBatch => astr "UNLOGGED_BATCH"
+  | WtCounter => astr "COUNTER" | WtBatchLog => astr "BATCH_LOG" | WtCas => astr "CAS"
+  | WtView => astr "VIEW" | WtCdc => astr "CDC" | WtOther s => s
   end.
 
 Inductive dberror : Type :=
@@ -104,7 +104,7 @@ Inductive schema_change : Type :=
 
 (* Vec::with_capacity(number_of_arguments) of Strings, then the arguments *)
 Definition read_arg_list : parser (list bytes) :=
-  n <- read_short ;; tick_alloc (n * SZ_STRING) ;;; repeatN read_string n.
+  n <- read_short ;; tick_alloc (n * SZ_STRING) ;;; repeatS read_string n.
 
 Definition deser_schema_change : parser schema_change :=
   cts <- read_string ;;
@@ -148,7 +148,7 @@ Definition parse_uuid_text (s : bytes) : option bytes :=
   if n =? 32 then parse_simple32 s
   else if n =? 36 then parse_hyphenated s
   else if (n =? 38) && nth_is s 0 123 && nth_is s 37 125 then parse_hyphenated (firstn 36 (skipn 1 s))
-  else if (n =? 45) && bytes_eqb (firstn 9 s) (ascii "urn:uuid:") then parse_hyphenated (skipn 9 s)
+  else if (n =? 45) && bytes_eqb (firstn 9 s) (astr "urn:uuid:") then parse_hyphenated (skipn 9 s)
   else None.
 
 Inductive event : Type :=
@@ -181,8 +181,7 @@ Fixpoint read_host_ids_f (fuel : nat) (n : N) : parser (list bytes) :=
          | None => fail EUuidParse
          end
        end.
-Definition read_host_ids (n : N) : parser (list bytes) :=
-  fun b => read_host_ids_f (S (List.length b)) n b.
+Definition read_host_ids (n : N) : parser (list bytes) := read_host_ids_f (N.to_nat n) n.
 
 Definition deser_client_routes : parser event :=
   t <- read_string ;;
@@ -256,7 +255,7 @@ Definition deser_rows_meta (h : rows_hdr) : parser (option bytes * list colspec 
 (* RawRowIterator driven to the end (rows_iter): per row one [bytes] cell per column spec; the
    first failure ends the iteration.  Without columns every row is empty and nothing is read:
    the rows are not materialised. *)
-Definition deser_row (ncols : N) : parser (list cell) := repeatN read_bytes_opt ncols.
+Definition deser_row (ncols : N) : parser (list cell) := repeatS read_bytes_opt ncols.
 Definition deser_rows (ncols count : N) : parser (list (list cell)) :=
   if ncols =? 0 then ret [] else repeatN (deser_row ncols) count.
 
